@@ -64,6 +64,9 @@ def filter_empty(args: dict, meta: dict, info: dict):
             target = info if key in ("comment", "source", "private") else meta
             if key in target:
                 del target[key]
+            # other clients keep the comment at the top level
+            if key == "comment" and key in meta:
+                del meta[key]
             del args[key]
             logger.debug("removeing empty fields %s", val)
 
